@@ -52,9 +52,12 @@ def _add_scatter(to_scatter, origin, basis, dx, dy, ax, map_unit):
                 ]
         datax.name = basis.u.name
         datay.name = basis.v.name
-        scatter(
-            x=datax.to(map_unit), y=datay.to(map_unit), ax=ax, **to_scatter[0]["params"]
-        )
+        # The colour and size of the points are named `color` and `size` in `scatter`
+        params = dict(to_scatter[0]["params"])
+        for short, long in (("c", "color"), ("s", "size")):
+            if short in params:
+                params[long] = params.pop(short)
+        scatter(x=datax.to(map_unit), y=datay.to(map_unit), ax=ax, **params)
 
 
 def map(
